@@ -325,6 +325,13 @@ impl Builtins {
                 if let &Value::P(Primitive::Str(ref c_type)) = c_type_val.as_ref() {
                     let stdout = env.borrow().stdout();
                     match env.borrow().converter_registry.get_converter(c_type) { Some(c) => {
+                        // Convert into a buffer first. A value that can not be
+                        // converted must not leave an empty or truncated
+                        // artifact behind or destroy an earlier one.
+                        let mut buf: Vec<u8> = Vec::new();
+                        if let Err(e) = c.convert(Rc::new(val), &mut buf) {
+                            return Err(Error::new(format!("{}", e).into(), pos.clone()));
+                        }
                         let mut writer: Box<dyn std::io::Write> = match write_path {
                             Some(p) => {
                                 let p = p.with_extension(c.file_ext());
@@ -332,9 +339,7 @@ impl Builtins {
                             }
                             None => Box::new(stdout),
                         };
-                        if let Err(e) = c.convert(Rc::new(val), &mut writer) {
-                            return Err(Error::new(format!("{}", e).into(), pos.clone()));
-                        }
+                        writer.write_all(&buf)?;
                         return Ok(());
                     } _ => {
                         return Err(Error::new(
